@@ -11,7 +11,8 @@ from .common import MEM, writer_table
 
 EXPLANATION = ("Memory object streams: clone counters written only by __post_init__ (+1) and an idempotent close (-1 exactly with the "
                "closed mark), last close wakes every waiter of the other side, raise-site fact table for ClosedResourceError / EndOfStream / "
-               "BrokenResourceError / WouldBlock, every other exit is reached only on a handle that is not closed.")
+               "BrokenResourceError / WouldBlock, every other exit is reached only on a handle that is not closed."
+               " Blocked receivers (senders) are taken out of their queue, or have their events set, only by the peer's hand-over, their own clean-up and the close of the last send (receive) clone.")
 NOT_DECIDED = "Histories of clone()/close() over many handles (the counters' run-time values); only the per-site discipline is decided."
 
 SIDES = {
